@@ -129,16 +129,26 @@ class History:
             # membership: join / leave / ban / kick / invite
             actor = rng.choice(USERS)
             q = rng.random()
-            if q < 0.35:
-                return self.add("m.room.member", actor, actor, {"membership": "join"}, prevs, force_accept=force)
-            if q < 0.5:
+            if q < 0.3:
+                c = {"membership": "join"}
+                if rng.random() < 0.25:
+                    # a (possibly unjustified) restricted join vouched for by some user
+                    c["join_authorised_via_users_server"] = rng.choice(joined if rng.random() < 0.8 else USERS)
+                return self.add("m.room.member", actor, actor, c, prevs, force_accept=force)
+            if q < 0.42:
                 return self.add("m.room.member", actor, actor, {"membership": "leave"}, prevs, force_accept=force)
+            if q < 0.5:
+                return self.add("m.room.member", actor, actor, {"membership": "knock"}, prevs, force_accept=force)
             target = rng.choice([u for u in USERS if u != actor])
             m = "ban" if q < 0.75 else ("leave" if q < 0.9 else "invite")
             return self.add("m.room.member", target, actor, {"membership": m}, prevs, force_accept=force)
         if r < 0.65:
             sender = rng.choice(USERS) if bad else rng.choice(joined)
-            return self.add("m.room.join_rules", "", sender, {"join_rule": rng.choice(["public", "invite", "knock"])}, prevs, force_accept=force)
+            jr = rng.choice(["public", "invite", "knock", "knock", "restricted", "knock_restricted"])
+            c = {"join_rule": jr}
+            if jr in ("restricted", "knock_restricted"):
+                c["allow"] = [{"type": "m.room_membership", "room_id": "!other:hs1.org"}]
+            return self.add("m.room.join_rules", "", sender, c, prevs, force_accept=force)
         etype = rng.choice(["m.room.topic", "m.room.name", "m.room.topic"])
         sender = rng.choice(USERS) if bad else rng.choice(joined)
         return self.add(etype, "", sender, {etype.split(".")[-1]: "v%d" % self.n}, prevs, force_accept=force)
